@@ -59,29 +59,47 @@ def unfold_rec_apps(terms, depth=2, reveals=()):
     cur = list(terms)
     for _ in range(depth):
         new = []
-        seen, todo = set(), list(cur)
-        while todo:
-            t = todo.pop()
-            if t.get_id() in seen:
-                continue
-            seen.add(t.get_id())
-            if z3.is_quantifier(t):
-                todo.append(t.body())
-                continue
-            if z3.is_app(t):
+        for top in cur:
+            for t in _rec_apps(top):
                 nm = t.decl().name()
-                if nm in REC_DEFS and t.get_id() not in done and not _has_bound_var(t) and (
-                        not getattr(REC_DEFS[nm], "opaque", False) or REC_DEFS[nm].name in reveals):
+                if t.get_id() not in done and (not getattr(REC_DEFS[nm], "opaque", False) or REC_DEFS[nm].name in reveals):
                     done.add(t.get_id())
                     rs = REC_DEFS[nm]
                     inst = z3.substitute(rs.def_body, *[(p, a) for p, a in zip(rs.def_params, t.children())])
                     new.append(t == inst)
-                todo.extend(t.children())
         if not new:
             break
         facts += new
         cur = new
     return facts
+
+
+_REC_APPS_CACHE = {}
+
+
+def _rec_apps(top):
+    """closed applications of recursive spec functions inside `top` (cached: hypotheses are shared by many obligations)"""
+    key = (top.get_id(), len(REC_DEFS))
+    hit = _REC_APPS_CACHE.get(key)
+    if hit is not None and hit[0].eq(top):
+        return hit[1]
+    out, seen, todo = [], set(), [top]
+    while todo:
+        t = todo.pop()
+        if t.get_id() in seen:
+            continue
+        seen.add(t.get_id())
+        if z3.is_quantifier(t):
+            todo.append(t.body())
+            continue
+        if z3.is_app(t):
+            if t.decl().name() in REC_DEFS and not _has_bound_var(t):
+                out.append(t)
+            todo.extend(t.children())
+    if len(_REC_APPS_CACHE) > 200000:
+        _REC_APPS_CACHE.clear()
+    _REC_APPS_CACHE[key] = (top, out)
+    return out
 
 
 def _has_bound_var(t):
@@ -299,6 +317,8 @@ class ContractMixin:
         the integer `var` downwards to `lower`: the induction hypothesis is the lemma at var - 1."""
         from .symex import Frame
         self.cur_fn = "lemma:" + name
+        from .state import reset_counter
+        reset_counter()
         self.cur_reveals = tuple(d.get("reveals", ()))
         fr = Frame(None, "<spec>")
         self.cur_frame = fr
@@ -342,6 +362,8 @@ class ContractMixin:
         """Generate all obligations of `fi` against its contract `c`."""
         from .symex import Frame, EngineError, Raised
         self.cur_fn = c.qualname
+        from .state import reset_counter
+        reset_counter()      # fresh names are per function: query texts do not depend on what was verified before
         self.cur_reveals = tuple(c.reveals)
         fr = Frame(fi, fi.module, fi.cls)
         fr.contract = c
